@@ -378,7 +378,8 @@ void zzDivMod(word b[], const word divident[], const word a[],
 	if (!wwIsW(u, nu, 1))
 		wwSetZero(b, n);
 	// здесь da * a == divident \mod mod
-	wwCopy(b, da, n);
+	else
+		wwCopy(b, da, n);
 	// очистка
 	nu = nv = 0;
 }
@@ -507,12 +508,15 @@ size_t zzAlmostInvMod(word b[], const word a[], const word mod[], size_t n,
 	// \gcd(a, mod) != 1? b <- 0
 	if (!wwIsW(v, nv, 1))
 		wwSetZero(b, n);
-	// da >= mod => da -= mod
-	if (wwCmp2(da, n + 1, mod, n) >= 0)
-		da[n] -= zzSub2(da, mod, n);
-	ASSERT(wwCmp2(da, n + 1, mod, n) < 0);
-	// b <- mod - da
-	zzNegMod(b, da, mod, n);
+	else
+	{
+		// da >= mod => da -= mod
+		if (wwCmp2(da, n + 1, mod, n) >= 0)
+			da[n] -= zzSub2(da, mod, n);
+		ASSERT(wwCmp2(da, n + 1, mod, n) < 0);
+		// b <- mod - da
+		zzNegMod(b, da, mod, n);
+	}
 	// возврат
 	return k;
 }
